@@ -81,7 +81,10 @@ def scenario_params(rng, large=False):
         nes = 2 + rng.below(2)
         ph[0:3] = [130 + rng.below(11), 0, 2 + rng.below(2)]
         ext = [0, 0, 2, 5][rng.below(4)]
-    return ["bar", nes] + ph + [ext, rng.below(3), rng.below(2)]
+    # flags: 1 a pool shared by the secondary streams, 2 the secondary streams are joined while the waiters of the last
+    # phase are still in the barrier, 4 waiters with a pending migration request (towards the primary stream's pool)
+    flags = rng.below(8) if nes >= 2 else 0
+    return ["bar", nes] + ph + [ext, rng.below(3), rng.below(2), flags]
 
 
 def validate(lg, params):
